@@ -1,6 +1,8 @@
 import GqlgenVerif.Model.Stream
 import GqlgenVerif.Model.StreamGen
 import GqlgenVerif.Lemmas.Stream
+import GqlgenVerif.Lemmas.StreamMp
+import GqlgenVerif.Gen.StreamFmt
 /-!
 # C12 — streamed HTTP responses (SSE, multipart/mixed) are well-framed under any timing
 -/
@@ -16,13 +18,6 @@ theorem gen_sse_fmt : genSse = canonSse := by decide
 theorem gen_mp_fmt : genMp = canonMp := by decide
 
 /-! ## SSE -/
-
-theorem item_notPing (c : Stream.Chunk) : notPing c.item = decide (c ≠ Stream.Chunk.ping) := by
-  cases c <;> simp [notPing, Stream.Chunk.item, pingItem, hdrItem, nextItem, completeItem, pingText]
-
-theorem filter_item (cs : List Stream.Chunk) :
-    (cs.map Stream.Chunk.item).filter notPing = (cs.filter (· ≠ Stream.Chunk.ping)).map Stream.Chunk.item := by
-  simp [List.filter_map, Function.comp_def, item_notPing]
 
 /-- every chunk the machine writes is a whole block when the payloads are single lines -/
 theorem sse_chunks_ok (ka : Bool) (ps : List Bytes) (sched : List Step) (h : ∀ p ∈ ps, OneLine p) :
@@ -97,12 +92,213 @@ theorem sse_prefix (ka : Bool) (ps : List Bytes) (sched : List Step) (pre suf : 
   rw [← hs]
   exact parseSSE_prefix pre suf
 
+/-- the same through the executable prefix Spec the driver evaluates on what a disconnecting client
+    received: pings aside the items are a prefix of `comment, next p₁ … next pₙ, complete`, the
+    comment (if anything) first, and `complete` - if present - last -/
+theorem sse_prefix_spec (ka : Bool) (ps : List Bytes) (sched : List Step) (h : ∀ p ∈ ps, OneLine p)
+    (pre suf : Bytes) (hs : pre ++ suf = sseStream genSse ka ps sched) :
+    sseSpecPrefix ps (parseSSE pre) = true := by
+  rcases sse_prefix ka ps sched pre suf hs with ⟨rest, hr⟩
+  rcases sse_parses ka ps sched h with ⟨mid, h1, h2, h3, _⟩
+  rw [h1] at hr
+  simp only at hr
+  have hfull : (hdrItem :: (mid ++ [completeItem])).filter notPing = sseExpected ps := by
+    simp [List.filter_cons, List.filter_append, h2, sseExpected, notPing, hdrItem, pingItem, completeItem, pingText]
+  have hcm : completeItem ∉ hdrItem :: mid := by
+    intro hm
+    simp only [List.mem_cons] at hm
+    rcases hm with hm | hm
+    · simp [completeItem, hdrItem] at hm
+    · rcases h3 _ hm with e | ⟨p, _, e⟩
+      · simp [completeItem, pingItem] at e
+      · simp [completeItem, nextItem, completeName, nextName] at e
+  have hpre : (parseSSE pre).1 <+: hdrItem :: (mid ++ [completeItem]) := ⟨rest, hr.symm⟩
+  have p1 : ((parseSSE pre).1.filter notPing).isPrefixOf (sseExpected ps) = true := by
+    rw [List.isPrefixOf_iff_prefix, ← hfull]
+    exact hpre.filter _
+  have p2 : ((parseSSE pre).1.head? == some hdrItem || (parseSSE pre).1.isEmpty) = true := by
+    cases hp : (parseSSE pre).1 with
+    | nil => simp
+    | cons x xs =>
+      rw [hp] at hr
+      simp at hr
+      simp [hr.1]
+  have p3 : ((parseSSE pre).1.getLast? == some completeItem || !((parseSSE pre).1.contains completeItem)) = true := by
+    by_cases hc : completeItem ∈ (parseSSE pre).1
+    · have e : (hdrItem :: mid) ++ [completeItem] = (parseSSE pre).1 ++ rest := by simpa using hr
+      rcases List.append_eq_append_iff.1 e with ⟨a', e1, e2⟩ | ⟨c', e1, e2⟩
+      · -- (parseSSE pre).1 = (hdr :: mid) ++ a', [complete] = a' ++ rest
+        cases a' with
+        | nil => rw [e1] at hc; simp at hc; exact absurd (by simpa using hc) hcm
+        | cons y ys =>
+          simp at e2
+          rcases e2 with ⟨rfl, hys, _⟩
+          subst hys
+          rw [e1]
+          simp only [List.cons_append]
+          have : (hdrItem :: (mid ++ [completeItem])).getLast? = some completeItem := by
+            rw [← List.cons_append, List.getLast?_concat]
+          simp [this]
+      · -- hdr :: mid = (parseSSE pre).1 ++ c'
+        exact absurd (by rw [e1]; simp [hc]) hcm
+    · simp [hc]
+  simp only [sseSpecPrefix, p1, p2, p3, Bool.and_self]
+
+/-- why the statement is at critical-section granularity (and what the code did before the writes were
+    put under `sseConnection.mu`): if a ping lands *inside* the Write of an event - the byte stream
+    observed on the unrepaired tree, `event: n` `: ping\n\n` `ext\ndata: {}\n\n` - the stream does not parse:
+    the parser reports junk and the property fails. Atomicity of a critical section is an assumption
+    about sync.Mutex / net/http, not a theorem. -/
+theorem sse_torn_write_witness :
+    sseSpec [[0x7B, 0x7D]] (parseSSE (canonSse.header ++ [0x65, 0x76, 0x65, 0x6E, 0x74, 0x3A, 0x20, 0x6E] ++
+      canonSse.ping ++ [0x65, 0x78, 0x74, 0x0A, 0x64, 0x61, 0x74, 0x61, 0x3A, 0x20, 0x7B, 0x7D, 0x0A, 0x0A] ++
+      canonSse.complete)) = false := by
+  decide
+
 /-- the hypotheses are satisfiable, and the statement is not vacuous: a concrete run with pings -/
 example : (∀ p ∈ [[0x7B, 0x7D], [0x7B, 0x22, 0x61, 0x22, 0x3A, 0x31, 0x7D]], OneLine p) := by
   intro p hp; simp at hp; rcases hp with rfl | rfl <;> simp [OneLine, LF, CR]
 
 example : parseSSE (sseStream canonSse true [[0x7B, 0x7D], [0x5B, 0x5D]] [.tick, .main, .tick, .tick, .main, .tick]) =
     ([hdrItem, pingItem, nextItem [0x7B, 0x7D], pingItem, pingItem, nextItem [0x5B, 0x5D], pingItem, completeItem], false) := by
+  decide
+
+/-! ## multipart/mixed -/
+
+/-- for every hasNext-shaped payload sequence and every schedule of `Add`s and flush ticks, the
+    flushes form a chain (first carries the initial payload, every later one a non-empty batch, all
+    but the last say hasNext) that delivers exactly the payloads, in order -/
+theorem multipart_groups (ps : List Resp) (sched : List Step) (hs : HasNextShape ps) :
+    Chain true (mpGroups ps sched) ∧ (mpGroups ps sched).flatMap Group.payloads = ps := by
+  have hne : ps ≠ [] := by rcases hs with ⟨i, l, rfl, _, _⟩; simp
+  have hw : WF (mpInit ps) := ⟨fun _ => by simp [mpInit], fun h => by simp [mpInit] at h⟩
+  have hr : Rem (mpInit ps) = ps := by simp [Rem, mpInit, pend]
+  rcases mp_run_shape sched (mpInit ps) rfl hw (by rw [hr]; exact Or.inr hs) with ⟨gs, h1, h2, h3, _⟩
+  have e : mpGroups ps sched = gs := by simpa [mpGroups, mpInit] using h1
+  rw [e]
+  exact ⟨by simpa [mpInit] using h3 (by rw [hr]; exact hne), by rw [h2, hr]⟩
+
+/-- **multipart_parses** — for all payloads with the hasNext shape true…true,false, every boundary
+    and every placement of flush ticks: the body parses (strict RFC 2046 reading: no preamble, no
+    epilogue) as parts `initial :: batches`, where the batches are non-empty, concatenate to the
+    incremental payloads in order (each exactly once), every part is labelled
+    `Content-Type: application/json`, each wrapper says `hasNext` exactly when another part follows,
+    and the closing delimiter appears exactly once, last. -/
+theorem multipart_parses (B : Bytes) (ps : List Resp) (sched : List Step) (hB : CR ∉ B)
+    (hs : HasNextShape ps) (hb : ∀ r ∈ ps, BodyOK r.body) :
+    ∃ p0 batches, ps = p0 :: batches.flatten ∧ (∀ b ∈ batches, b ≠ []) ∧
+      parseMP B (mpStream genMp B ps sched) = (mpExpected genMp p0 batches, false) := by
+  rcases multipart_groups ps sched hs with ⟨hc, hp⟩
+  have hbo : ∀ g ∈ mpGroups ps sched, g.BodiesOK := by
+    intro g hg
+    have hsub : ∀ r ∈ g.payloads, r ∈ ps := by
+      intro r hr
+      rw [← hp]
+      exact List.mem_flatMap.2 ⟨g, hg, hr⟩
+    exact ⟨fun r hi => hb r (hsub r (by simp [Group.payloads, hi])),
+      fun r hr => hb r (hsub r (by simp [Group.payloads, hr]))⟩
+  rcases chain_true_items _ hc with ⟨p0, batches, h1, h2, h3⟩
+  refine ⟨p0, batches, by rw [← hp, h1], h2, ?_⟩
+  rw [gen_mp_fmt]
+  simp only [mpStream]
+  rw [parse_groups B _ hB hc hbo, h3]
+
+/-- the same statement through the executable Spec the driver evaluates on the implementation's bytes -/
+theorem multipart_spec_holds (B : Bytes) (ps : List Resp) (sched : List Step) (hB : CR ∉ B)
+    (hs : HasNextShape ps) (hb : ∀ r ∈ ps, BodyOK r.body) :
+    mpSpec genMp ps (parseMP B (mpStream genMp B ps sched)) = true := by
+  rcases multipart_parses B ps sched hB hs hb with ⟨p0, batches, h1, h2, h3⟩
+  have hc : ∀ bs, (incParts genMp bs).count MItem.close = 0 := by
+    intro bs
+    induction bs with
+    | nil => simp [incParts]
+    | cons b bs ih => simp [incParts, partItem, ih]
+  have hl : (mpExpected genMp p0 batches).getLast? = some MItem.close := by
+    simp only [mpExpected]
+    rw [← List.cons_append, List.getLast?_concat]
+  have hn : (mpExpected genMp p0 batches).count MItem.close = 1 := by
+    simp [mpExpected, partItem, List.count_append, hc]
+  rw [h3, h1]
+  simp only [mpSpec, hl, hn]
+  simp [mpExpected, partItem, mpSpecParts_batches genMp batches h2]
+
+/-- **client disconnect**: whatever byte prefix of the body a client has read, its complete parts are
+    a prefix of the parts of the whole body (so: no junk, whole parts only, each payload at most once,
+    in order; the closing delimiter only after everything) -/
+theorem multipart_prefix (B : Bytes) (ps : List Resp) (sched : List Step) (pre suf : Bytes)
+    (hs : pre ++ suf = mpStream genMp B ps sched) :
+    ∃ rest, (parseMP B (mpStream genMp B ps sched)).1 = (parseMP B pre).1 ++ rest := by
+  rw [← hs]
+  exact parseMP_prefix B pre suf
+
+/-- closing delimiter exactly once, and last -/
+theorem multipart_close_once_last (f : MpFmt) (p0 : Resp) (batches : List (List Resp)) :
+    (mpExpected f p0 batches).count MItem.close = 1 ∧ (mpExpected f p0 batches).getLast? = some MItem.close := by
+  have hc : ∀ bs, (incParts f bs).count MItem.close = 0 := by
+    intro bs
+    induction bs with
+    | nil => simp [incParts]
+    | cons b bs ih => simp [incParts, partItem, ih]
+  refine ⟨by simp [mpExpected, partItem, List.count_append, hc], ?_⟩
+  simp only [mpExpected]
+  rw [← List.cons_append, List.getLast?_concat]
+
+/-- every part holds valid JSON (grammar of `Model/JsonFrame.lean`) when the payloads do -/
+theorem multipart_parts_json (p0 : Resp) (batches : List (List Resp)) (hne : ∀ b ∈ batches, b ≠ [])
+    (hv : ∀ r ∈ p0 :: batches.flatten, ∃ v, Parses r.body v) :
+    ∀ hs body, MItem.part hs body ∈ mpExpected canonMp p0 batches → ∃ v, Parses body v := by
+  have hinc : ∀ (bs : List (List Resp)), (∀ b ∈ bs, b ≠ []) → (∀ r ∈ bs.flatten, ∃ v, Parses r.body v) →
+      ∀ hs body, MItem.part hs body ∈ incParts canonMp bs → ∃ v, Parses body v := by
+    intro bs
+    induction bs with
+    | nil => intro _ _ hs body h; simp [incParts] at h
+    | cons b bs ih =>
+      intro h1 h2 hs body h
+      simp only [incParts, List.mem_cons] at h
+      rcases h with h | h
+      · simp [partItem] at h
+        rw [h.2]
+        exact incJson_valid b _ (h1 b (by simp)) (fun r hr => h2 r (by simp [hr]))
+      · exact ih (fun x hx => h1 x (by simp [hx])) (fun r hr => h2 r (by simp at hr ⊢; exact Or.inr hr)) hs body h
+  intro hs body h
+  simp only [mpExpected, List.mem_cons, List.mem_append] at h
+  rcases h with h | h | h
+  · simp [partItem] at h
+    rw [h.2]; exact hv p0 (by simp)
+  · exact hinc batches hne (fun r hr => hv r (by simp at hr ⊢; exact Or.inr hr)) hs body h
+  · simp at h
+
+/-- without the hasNext shape the statement fails on the code as it is: two payloads that both say
+    "nothing follows" (what a subscription over multipart/mixed produces), flushed separately, give
+    two closing delimiters - the hypothesis `HasNextShape` of `multipart_parses` is needed -/
+theorem multipart_noshape_witness :
+    mpSpec canonMp [⟨[0x7B, 0x7D], false⟩, ⟨[0x7B, 0x7D], false⟩]
+      (parseMP [0x2D] (mpStream canonMp [0x2D] [⟨[0x7B, 0x7D], false⟩, ⟨[0x7B, 0x7D], false⟩] [.main, .tick])) = false := by
+  decide
+
+/-- hypotheses satisfiable / statement not vacuous: a concrete shaped run with two ticks -/
+example : HasNextShape [⟨[0x7B, 0x7D], true⟩, ⟨[0x7B, 0x7D], true⟩, ⟨[0x7B, 0x7D], false⟩] :=
+  ⟨[⟨[0x7B, 0x7D], true⟩, ⟨[0x7B, 0x7D], true⟩], ⟨[0x7B, 0x7D], false⟩, rfl, by simp, rfl⟩
+
+example : BodyOK [0x7B, 0x7D] := by simp [BodyOK, LF, CR]
+
+example : mpSpec canonMp [⟨[0x7B, 0x7D], true⟩, ⟨[0x7B, 0x7D], true⟩, ⟨[0x7B, 0x7D], false⟩]
+    (parseMP [0x2D] (mpStream canonMp [0x2D] [⟨[0x7B, 0x7D], true⟩, ⟨[0x7B, 0x7D], true⟩, ⟨[0x7B, 0x7D], false⟩]
+      [.main, .tick, .main, .main, .tick])) = true := by
+  decide
+
+/-! ## writes are serialised (syntactic lock discipline, read off the source on every run) -/
+
+/-- every call in sse.go that writes to or flushes the response is made under `sseConnection.mu`,
+    or before `go c.keepAlive(w)`, or inside `writeJsonWithSSE` (whose call sites are in the list) -/
+theorem sse_writes_serialised : ∀ s ∈ Gen.StreamFmt.sseSites, s.2 = 1 ∨ s.2 = 2 ∨ s.2 = 3 := by decide
+
+/-- every call in http_multipart_mixed.go that writes to or flushes the response is made under
+    `multipartResponseAggregator.mu`, or before the aggregator (and its ticker goroutine) exists, or
+    in a helper called from such a place, or is the deferred `flusher.Flush()` that runs after
+    `a.Done(w)`; and the ticker goroutine touches the response only through `a.flush` -/
+theorem mp_writes_serialised :
+    (∀ s ∈ Gen.StreamFmt.mpSites, s.2 = 1 ∨ s.2 = 2 ∨ s.2 = 3 ∨ s.2 = 4) ∧ Gen.StreamFmt.mpTickerOnlyFlushes = true := by
   decide
 
 end GqlgenVerif.Props.C12
